@@ -5,13 +5,17 @@
    (include_expired on, then off; each pass on a gateway loaded afresh from the history):
      [ eav |-> 0/1, chrono |-> 0/1 (timestamps non-decreasing in arrival order),
        uniq |-> 0/1 (no two different frames share a timestamp),
-       ops |-> << [op, g, ie, src, ok, pk, exp, rq, wr, und, tc, sch] ... >> ]
+       ops |-> << [op, g, ie, src, ok, pk, exp, rq, wr, und, tc, age, life, sch] ... >> ]
    op = "snap"     get_state(include_expired = ie) of gateway g at quiescence:
                    pk  = ids of the packets (timestamp + line) of the snapshot
                    exp = those whose re-decoded message is expired at the (pinned) clock
                    rq / wr / und = requests / writes other than schedule fragments / lines the
                                    decoder rejects;  tc = date-time (313F) packets
                    sch = id of the canonical (shrunk) schema
+                   age / life = parallel to pk: the packet's age by the clock of the snapshot (clock -
+                                stamp, ms, capped far beyond any threshold) and the lifetime of its kind
+                                (ms; -1 = never; a sync-cycle countdown: the one in its payload) - the
+                                inputs of C14's lifetime rule, not the library's own verdict (exp)
         "restore"  _restore_cached_packets(packets of the snapshot taken at op number src) into g
    ok = 0: the operation raised (C13's subject; the rest of the pass is not judged).
 
@@ -48,6 +52,16 @@ ContentClass(e) ==
   ELSE IF e.wr # <<>> THEN "C16c:write-other-than-schedule-fragment-in-snapshot"
   ELSE IF e.ie = 0 /\ (SetOf(e.exp) \ SetOf(e.tc)) # {} THEN "C16c:expired-packet-in-snapshot"
   ELSE IF e.ie = 0 /\ (SetOf(e.exp) \cap SetOf(e.tc)) # {} THEN "C16c:expired-packet-in-snapshot:313F"
+  ELSE ""
+
+(* C16c "nor (unless asked for) expired packets", judged without the library's verdict: a packet whose age
+   is at least twice the lifetime of its kind plus the grace (C14: by then it is always expired) may not
+   be in a snapshot taken with include_expired off.  Date-time packets are kept on purpose (same class as
+   above).  Below that age C14 leaves "expired" open and nothing is demanded. *)
+WindowClass(e) ==
+  LET past == IF e.ie = 0 THEN PastLife(e.age, e.life) ELSE {} IN
+  IF \E i \in past : e.pk[i] \notin SetOf(e.tc) THEN "C16c:packet-past-twice-its-lifetime-in-snapshot"
+  ELSE IF past # {} THEN "C16c:expired-packet-in-snapshot:313F"
   ELSE ""
 
 (* C16a / C16b: e is a snapshot of g, ref the snapshot it must equal *)
@@ -87,8 +101,9 @@ TStep ==
            clause == IF fresh THEN "C16a" ELSE "C16b"
            how == IF fresh THEN "" ELSE IF Ops[pending[g]].g = g THEN ":restore-into-source" ELSE ":second-restore"
            fc == IF refno = 0 THEN "" ELSE FixClass(e, Ops[refno], clause, how)
-           cc == ContentClass(e) IN
-       /\ fail' = Add(Add(fail, l, fc), l, cc)
+           cc == ContentClass(e)
+           wc == WindowClass(e) IN
+       /\ fail' = Add(Add(Add(fail, l, fc), l, cc), l, wc)
        /\ schemaOkIe1' = IF refno # 0 /\ fresh /\ e.ie = 1 THEN e.sch = Ops[refno].sch ELSE schemaOkIe1
        /\ prevSnap' = [prevSnap EXCEPT ![g] = l]
        /\ pending' = [pending EXCEPT ![g] = 0]
